@@ -226,6 +226,11 @@ func checkTotalDet(line, text string, o *core.Outcome) adaptRes {
 	}
 	for i := 0; i < n; i++ {
 		r2 := adaptText(text)
+		if i == n-1 {
+			// the last repeat goes through the other front door: POST /load passes no options where `caddy adapt`
+			// passes the file name; both must give the same bytes
+			r2 = adaptTextLoad(text)
+		}
 		if r2.verdict() != r.verdict() {
 			o.Failures = append(o.Failures, core.Failure{Case: line, Class: "nondeterministic-verdict",
 				What: fmt.Sprintf("same text adapted twice: %s then %s (%v / %v); input %q", r.verdict(), r2.verdict(), r.err, r2.err, clip(text, 400))})
@@ -236,6 +241,7 @@ func checkTotalDet(line, text string, o *core.Outcome) adaptRes {
 				What: fmt.Sprintf("same text adapted twice gives different JSON: %s", firstDiff(r.json, r2.json))})
 			break
 		}
+		sideOutputTags(r, r2, o)
 	}
 	return r
 }
